@@ -524,3 +524,458 @@ Qed.
 End Slice.
 
 End WidthProofs.
+
+(* ---- C10, fourth part: the slice character by character (zero-width included) ---- *)
+Section SliceCells.
+Variable wc : char -> Z.
+
+Lemma width_of_wsum cs : width_of wc cs = wsum wc cs.
+Proof. induction cs as [|x cs IH]; cbn [width_of wsum]; [reflexivity|now rewrite IH]. Qed.
+
+Lemma positions_app : forall x y p,
+  positions wc p (x ++ y) = positions wc p x ++ positions wc (p + wsum wc x) y.
+Proof.
+  induction x as [|c x IH]; intros y p; cbn [positions app wsum].
+  - now replace (p + 0) with p by lia.
+  - rewrite IH. now replace (p + wc (fst c) + wsum wc x) with (p + (wc (fst c) + wsum wc x)) by lia.
+Qed.
+
+Lemma slice_ref_from_app x y p a b :
+  slice_ref_from wc p a b (x ++ y) = slice_ref_from wc p a b x ++ slice_ref_from wc (p + wsum wc x) a b y.
+Proof. unfold slice_ref_from. now rewrite positions_app, flat_map_app. Qed.
+
+Lemma slice_ref_from_cons x cs p a b :
+  slice_ref_from wc p a b (x :: cs) = keep_char wc a b (p, x) ++ slice_ref_from wc (p + wc (fst x)) a b cs.
+Proof. reflexivity. Qed.
+
+(* the body of the helper's loop is [keep_char], except for a zero-width character
+   at local column 0 *)
+Lemma was_char_keep c st K p a b :
+  w012 wc c -> 0 <= p -> (0 < p \/ wc c <> 0) ->
+  withst st (was_char c p (p + wc c) (Z.max 0 (a - K)) (b - K)) = keep_char wc a b (K + p, (c, st)).
+Proof.
+  intros Hc Hp Hnl. unfold was_char, keep_char, in_range, interval_overlap. cbn [fst snd].
+  destruct Hc as [Hw|[Hw|Hw]]; rewrite Hw; cbn [Z.eqb Pos.eqb andb].
+  - (* zero width, not at local column 0 *)
+    destruct Hnl as [Hnl|Hnl]; [|lia].
+    destruct ((p =? Z.max 0 (a - K)) && (p + 0 =? Z.max 0 (a - K))) eqn:E1.
+    + replace ((a <? K + p) && (K + p <=? b)) with false by lia. reflexivity.
+    + destruct ((p >=? Z.max 0 (a - K)) && (p + 0 <=? b - K)) eqn:E2.
+      * replace ((a <? K + p) && (K + p <=? b)) with true by lia. reflexivity.
+      * replace ((a <? K + p) && (K + p <=? b)) with false by lia.
+        replace (Z.to_nat (Z.max 0 (Z.min (p + 0) (b - K) - Z.max p (Z.max 0 (a - K))))) with 0%nat by lia.
+        reflexivity.
+  - (* one column *)
+    replace ((p =? Z.max 0 (a - K)) && (p + 1 =? Z.max 0 (a - K))) with false by lia.
+    destruct ((p >=? Z.max 0 (a - K)) && (p + 1 <=? b - K)) eqn:E.
+    + replace ((a <=? K + p) && (K + p + 1 <=? b)) with true by lia. reflexivity.
+    + replace ((a <=? K + p) && (K + p + 1 <=? b)) with false by lia.
+      replace (Z.to_nat (Z.max 0 (Z.min (p + 1) (b - K) - Z.max p (Z.max 0 (a - K))))) with 0%nat by lia.
+      reflexivity.
+  - (* two columns *)
+    replace ((p =? Z.max 0 (a - K)) && (p + 2 =? Z.max 0 (a - K))) with false by lia.
+    destruct ((p >=? Z.max 0 (a - K)) && (p + 2 <=? b - K)) eqn:E.
+    + replace ((a <=? K + p) && (K + p + 2 <=? b)) with true by lia. reflexivity.
+    + replace ((a <=? K + p) && (K + p + 2 <=? b)) with false by lia.
+      destruct (xorb ((a <=? K + p) && (K + p <? b)) ((a <=? K + p + 1) && (K + p + 1 <? b))) eqn:E2.
+      * replace (Z.to_nat (Z.max 0 (Z.min (p + 2) (b - K) - Z.max p (Z.max 0 (a - K))))) with 1%nat
+          by (destruct ((a <=? K + p) && (K + p <? b)) eqn:E3;
+              destruct ((a <=? K + p + 1) && (K + p + 1 <? b)) eqn:E4; cbn [xorb] in E2; lia).
+        reflexivity.
+      * replace (Z.to_nat (Z.max 0 (Z.min (p + 2) (b - K) - Z.max p (Z.max 0 (a - K))))) with 0%nat
+          by (destruct ((a <=? K + p) && (K + p <? b)) eqn:E3;
+              destruct ((a <=? K + p + 1) && (K + p + 1 <? b)) eqn:E4; cbn [xorb] in E2; lia).
+        reflexivity.
+Qed.
+
+(* a zero-width character at local column 0 of a run cut by the helper is dropped,
+   wherever the run stands *)
+Lemma was_char_lead c lo hi : wc c = 0 -> 0 <= lo -> was_char c 0 (0 + wc c) lo hi = [].
+Proof.
+  intros Hw Hlo. unfold was_char, interval_overlap. rewrite Hw.
+  destruct ((0 =? lo) && (0 + 0 =? lo)) eqn:E1; [reflexivity|].
+  destruct ((0 >=? lo) && (0 + 0 <=? hi)) eqn:E2; [lia|].
+  replace (Z.to_nat (Z.max 0 (Z.min (0 + 0) hi - Z.max 0 lo))) with 0%nat by lia. reflexivity.
+Qed.
+
+Lemma was_chars_keep st K a b : forall s p, str_ok wc s -> 0 < p ->
+  withst st (was_chars wc s p (Z.max 0 (a - K)) (b - K)) = slice_ref_from wc (K + p) a b (withst st s).
+Proof.
+  induction s as [|c s IH]; intros p Hok Hp; [reflexivity|].
+  apply str_ok_cons in Hok as [Hc Hok].
+  change (withst st (c :: s)) with ((c, st) :: withst st s).
+  rewrite slice_ref_from_cons. cbn [was_chars fst].
+  rewrite withst_app, was_char_keep by (assumption || lia).
+  rewrite IH by (assumption || destruct Hc as [Hw|[Hw|Hw]]; lia).
+  now rewrite Z.add_assoc.
+Qed.
+
+Lemma span_marks_withst st : forall s,
+  span_marks wc (withst st s) =
+  match s with
+  | [] => ([], [])
+  | c :: r => if wc c =? 0 then ((c, st) :: fst (span_marks wc (withst st r)), snd (span_marks wc (withst st r)))
+              else ([], withst st (c :: r))
+  end.
+Proof. intros [|c r]; reflexivity. Qed.
+
+(* the helper applied to a whole run: the leading marks go, the rest is [keep_char] *)
+Lemma was_chars_body st K a b : forall s, str_ok wc s ->
+  withst st (was_chars wc s 0 (Z.max 0 (a - K)) (b - K))
+  = slice_ref_from wc K a b (snd (span_marks wc (withst st s))).
+Proof.
+  induction s as [|c s IH]; intro Hok; [reflexivity|].
+  apply str_ok_cons in Hok as [Hc Hok].
+  rewrite span_marks_withst. cbn [was_chars].
+  destruct (wc c =? 0) eqn:E.
+  - cbn [snd]. rewrite was_char_lead by lia. cbn [app].
+    replace (0 + wc c) with 0 by lia. now apply IH.
+  - cbn [snd]. change (withst st (c :: s)) with ((c, st) :: withst st s).
+    rewrite slice_ref_from_cons. cbn [fst].
+    rewrite withst_app, was_char_keep by (assumption || lia).
+    replace (K + 0) with K by lia. f_equal.
+    rewrite was_chars_keep by (assumption || destruct Hc as [Hw|[Hw|Hw]]; lia).
+    now replace (K + (0 + wc c)) with (K + wc c) by lia.
+Qed.
+
+(* facts about the split of a run into leading marks and body *)
+Lemma span_marks_app cs : fst (span_marks wc cs) ++ snd (span_marks wc cs) = cs.
+Proof.
+  induction cs as [|x cs IH]; [reflexivity|]. cbn [span_marks].
+  destruct (zero_width wc x); cbn [fst snd app]; [now rewrite IH|reflexivity].
+Qed.
+
+Lemma span_marks_lead_width cs : wsum wc (fst (span_marks wc cs)) = 0.
+Proof.
+  induction cs as [|x cs IH]; [reflexivity|]. cbn [span_marks].
+  destruct (zero_width wc x) eqn:E; cbn [fst wsum]; [|reflexivity].
+  unfold zero_width in E. lia.
+Qed.
+
+Lemma span_marks_body cs :
+  snd (span_marks wc cs) = [] \/
+  exists x r, snd (span_marks wc cs) = x :: r /\ zero_width wc x = false.
+Proof.
+  induction cs as [|x cs IH]; [now left|]. cbn [span_marks].
+  destruct (zero_width wc x) eqn:E; cbn [snd]; [exact IH|].
+  right. now exists x, cs.
+Qed.
+
+Lemma span_marks_width cs : wsum wc (snd (span_marks wc cs)) = wsum wc cs.
+Proof.
+  rewrite <- (span_marks_app cs) at 2. rewrite wsum_app, span_marks_lead_width. lia.
+Qed.
+
+Lemma str_ok_body cs : str_ok wc (map fst cs) -> str_ok wc (map fst (snd (span_marks wc cs))).
+Proof.
+  intro H. rewrite <- (span_marks_app cs), map_app in H. now apply str_ok_app in H.
+Qed.
+
+(* [keep_char] on stretches lying on one side of, or inside, the range *)
+Lemma slice_ref_left a b : forall cs p, str_ok wc (map fst cs) -> p + wsum wc cs <= a ->
+  slice_ref_from wc p a b cs = [].
+Proof.
+  induction cs as [|x cs IH]; intros p Hok H; [reflexivity|].
+  cbn [map] in Hok. apply str_ok_cons in Hok as [Hx Hok].
+  pose proof (wsum_nonneg wc cs Hok) as Hn. cbn [wsum] in H.
+  rewrite slice_ref_from_cons, IH by (assumption || lia). rewrite app_nil_r.
+  unfold keep_char, in_range. cbn [fst snd].
+  destruct Hx as [Hw|[Hw|Hw]]; rewrite Hw; cbn [Z.eqb Pos.eqb andb].
+  - replace ((a <? p) && (p <=? b)) with false by lia. reflexivity.
+  - replace ((a <=? p) && (p + 1 <=? b)) with false by lia. reflexivity.
+  - replace ((a <=? p) && (p + 2 <=? b)) with false by lia.
+    replace ((a <=? p) && (p <? b)) with false by lia.
+    replace ((a <=? p + 1) && (p + 1 <? b)) with false by lia. reflexivity.
+Qed.
+
+Lemma slice_ref_right_strict a b : forall cs p, str_ok wc (map fst cs) -> b < p ->
+  slice_ref_from wc p a b cs = [].
+Proof.
+  induction cs as [|x cs IH]; intros p Hok H; [reflexivity|].
+  cbn [map] in Hok. apply str_ok_cons in Hok as [Hx Hok].
+  rewrite slice_ref_from_cons, IH by (assumption || destruct Hx as [Hw|[Hw|Hw]]; lia). rewrite app_nil_r.
+  unfold keep_char, in_range. cbn [fst snd].
+  destruct Hx as [Hw|[Hw|Hw]]; rewrite Hw; cbn [Z.eqb Pos.eqb andb].
+  - replace ((a <? p) && (p <=? b)) with false by lia. reflexivity.
+  - replace ((a <=? p) && (p + 1 <=? b)) with false by lia. reflexivity.
+  - replace ((a <=? p) && (p + 2 <=? b)) with false by lia.
+    replace ((a <=? p) && (p <? b)) with false by lia.
+    replace ((a <=? p + 1) && (p + 1 <? b)) with false by lia. reflexivity.
+Qed.
+
+(* ... a stretch that begins with a character of positive width at or right of b *)
+Lemma slice_ref_right a b x cs p : str_ok wc (map fst (x :: cs)) -> zero_width wc x = false -> b <= p ->
+  slice_ref_from wc p a b (x :: cs) = [].
+Proof.
+  intros Hok Hx H. cbn [map] in Hok. apply str_ok_cons in Hok as [Hx' Hok].
+  unfold zero_width in Hx.
+  rewrite slice_ref_from_cons, slice_ref_right_strict by (assumption || destruct Hx' as [Hw|[Hw|Hw]]; lia).
+  rewrite app_nil_r. unfold keep_char, in_range. cbn [fst snd].
+  destruct Hx' as [Hw|[Hw|Hw]]; rewrite Hw; cbn [Z.eqb Pos.eqb andb]; [lia| |].
+  - replace ((a <=? p) && (p + 1 <=? b)) with false by lia. reflexivity.
+  - replace ((a <=? p) && (p + 2 <=? b)) with false by lia.
+    replace ((a <=? p) && (p <? b)) with false by lia.
+    replace ((a <=? p + 1) && (p + 1 <? b)) with false by lia. reflexivity.
+Qed.
+
+Lemma slice_ref_inside_strict a b : forall cs p, str_ok wc (map fst cs) -> a < p -> p + wsum wc cs <= b ->
+  slice_ref_from wc p a b cs = cs.
+Proof.
+  induction cs as [|x cs IH]; intros p Hok Hlo Hhi; [reflexivity|].
+  cbn [map] in Hok. apply str_ok_cons in Hok as [Hx Hok].
+  pose proof (wsum_nonneg wc cs Hok) as Hn. cbn [wsum] in Hhi.
+  rewrite slice_ref_from_cons, IH by (assumption || destruct Hx as [Hw|[Hw|Hw]]; lia).
+  unfold keep_char. cbn [fst snd].
+  destruct Hx as [Hw|[Hw|Hw]]; rewrite Hw; cbn [Z.eqb Pos.eqb andb].
+  - replace ((a <? p) && (p <=? b)) with true by lia. reflexivity.
+  - replace ((a <=? p) && (p + 1 <=? b)) with true by lia. reflexivity.
+  - replace ((a <=? p) && (p + 2 <=? b)) with true by lia. reflexivity.
+Qed.
+
+(* ... a stretch that begins with a character of positive width at or right of a *)
+Lemma slice_ref_inside a b x cs p : str_ok wc (map fst (x :: cs)) -> zero_width wc x = false ->
+  a <= p -> p + wsum wc (x :: cs) <= b ->
+  slice_ref_from wc p a b (x :: cs) = x :: cs.
+Proof.
+  intros Hok Hx Hlo Hhi. cbn [map] in Hok. apply str_ok_cons in Hok as [Hx' Hok].
+  pose proof (wsum_nonneg wc cs Hok) as Hn. cbn [wsum] in Hhi. unfold zero_width in Hx.
+  rewrite slice_ref_from_cons, slice_ref_inside_strict by (assumption || destruct Hx' as [Hw|[Hw|Hw]]; lia).
+  unfold keep_char. cbn [fst snd].
+  destruct Hx' as [Hw|[Hw|Hw]]; rewrite Hw; cbn [Z.eqb Pos.eqb andb]; [lia| |].
+  - replace ((a <=? p) && (p + 1 <=? b)) with true by lia. reflexivity.
+  - replace ((a <=? p) && (p + 2 <=? b)) with true by lia. reflexivity.
+Qed.
+
+Lemma body_width_pos x r : str_ok wc (map fst (x :: r)) -> zero_width wc x = false -> 0 < wsum wc (x :: r).
+Proof.
+  intros Hok Hx. cbn [map] in Hok. apply str_ok_cons in Hok as [Hx' Hok].
+  pose proof (wsum_nonneg wc r Hok) as Hn. unfold zero_width in Hx. cbn [wsum].
+  destruct Hx' as [Hw|[Hw|Hw]]; lia.
+Qed.
+
+(* one iteration of the run walk, character by character *)
+Lemma walk_part_exact ch a b K :
+  str_ok wc (c_s ch) ->
+  cells (walk_part wc ch a b K (wsum wc (chunk_cells ch))) = run_ref wc a b K ch.
+Proof.
+  intro Hok. pose proof (str_ok_chunk_cells wc ch Hok) as Hok'.
+  pose proof (str_ok_body _ Hok') as Hokb.
+  unfold walk_part, run_ref. rewrite <- (span_marks_width (chunk_cells ch)).
+  pose proof (span_marks_app (chunk_cells ch)) as Happ.
+  pose proof (span_marks_body (chunk_cells ch)) as Hbody.
+  remember (fst (span_marks wc (chunk_cells ch))) as lead eqn:Hl.
+  remember (snd (span_marks wc (chunk_cells ch))) as body eqn:Hbd.
+  remember (wsum wc body) as w eqn:Hw.
+  destruct Hbody as [Hb|[x [r [Hb Hx]]]].
+  - (* a run of marks only (or empty): width 0 *)
+    rewrite Hb in *. cbn [wsum] in Hw. rewrite Hw in *. unfold lead_kept.
+    cbn [slice_ref_from positions flat_map]. rewrite app_nil_r in *.
+    destruct ((a <? K + 0) && (b >? K)) eqn:E.
+    + cbv zeta. replace (Z.min (b - K) 0 - Z.max 0 (a - K) =? 0) with true by lia.
+      replace ((a <? K) && (K <? b)) with true by lia.
+      cbn [cells flat_map]. rewrite app_nil_r. now symmetry.
+    + replace ((a <? K) && (K <? b)) with false by lia. reflexivity.
+  - (* a run with a body *)
+    rewrite Hb in *.
+    assert (Hwp : 0 < w) by (rewrite Hw; now apply body_width_pos).
+    unfold lead_kept. rewrite width_of_wsum, <- Hw.
+    destruct ((a <? K + w) && (b >? K)) eqn:E.
+    + cbv zeta. destruct (Z.min (b - K) w - Z.max 0 (a - K) =? w) eqn:E2.
+      * (* the whole run lies inside the range: reused as it is, leading marks included *)
+        replace ((a <=? K) && (K + w <=? b)) with true by lia.
+        cbn [cells flat_map]. rewrite app_nil_r, <- Happ. f_equal.
+        symmetry. apply slice_ref_inside; [assumption|assumption|lia|]. assert (Hle : K + w <= b) by lia. rewrite Hw in Hle. exact Hle.
+      * (* cut by the helper: leading marks dropped *)
+        replace ((a <=? K) && (K + w <=? b)) with false by lia.
+        cbn [cells flat_map app]. rewrite app_nil_r.
+        unfold chunk_cells at 1. cbn [c_s c_a].
+        fold (withst (eff (c_a ch)) (was_str wc (c_s ch) (Z.max 0 (a - K)) (b - K))).
+        unfold was_str. rewrite was_chars_body by assumption.
+        rewrite <- chunk_cells_withst, <- Hbd. reflexivity.
+    + (* no overlap *)
+      replace ((a <=? K) && (K + w <=? b)) with false by lia. cbn [cells flat_map app].
+      symmetry. destruct (a <? K + w) eqn:E1.
+      * apply slice_ref_right; [assumption|assumption|lia].
+      * apply slice_ref_left; [assumption|lia].
+Qed.
+
+Lemma run_ref_right ch a b K : str_ok wc (c_s ch) -> b < K -> run_ref wc a b K ch = [].
+Proof.
+  intros Hok H. pose proof (str_ok_chunk_cells wc ch Hok) as Hok'.
+  pose proof (str_ok_body _ Hok') as Hokb. pose proof (wsum_nonneg wc _ Hokb) as Hn.
+  unfold run_ref. rewrite slice_ref_right_strict by assumption. rewrite app_nil_r.
+  unfold lead_kept. rewrite width_of_wsum.
+  destruct (snd (span_marks wc (chunk_cells ch))).
+  - replace ((a <? K) && (K <? b)) with false by lia. reflexivity.
+  - replace ((a <=? K) && (K + wsum wc (c :: l) <=? b)) with false by lia. reflexivity.
+Qed.
+
+Lemma slice_ref_runs_right a b : forall f K, fs_ok wc f -> b < K -> slice_ref_runs_from wc K a b f = [].
+Proof.
+  induction f as [|ch f IH]; intros K Hok H; [reflexivity|].
+  apply fs_ok_cons in Hok as [Hc Hok]. cbn [slice_ref_runs_from].
+  rewrite run_ref_right by assumption. rewrite width_of_wsum.
+  pose proof (wsum_nonneg wc _ (str_ok_chunk_cells wc ch Hc)) as Hn.
+  apply IH; [assumption|lia].
+Qed.
+
+Lemma was_walk_exact a b : forall f K, fs_ok wc f ->
+  exists parts, was_walk wc f a b K = Ok parts /\ cells parts = slice_ref_runs_from wc K a b f.
+Proof.
+  induction f as [|ch f IH]; intros K Hok.
+  - exists []. split; reflexivity.
+  - apply fs_ok_cons in Hok as [Hc Hok].
+    rewrite was_walk_cons, chunk_width_ok by assumption. cbn [bind]. cbv zeta.
+    cbn [slice_ref_runs_from]. change (width_of wc (chunk_cells ch)) with (wsum wc (chunk_cells ch)).
+    destruct (b <? K + wsum wc (chunk_cells ch)) eqn:E.
+    + (* break: nothing of the remaining runs is kept *)
+      eexists. split; [reflexivity|].
+      rewrite walk_part_exact by assumption.
+      rewrite slice_ref_runs_right by (assumption || lia). now rewrite app_nil_r.
+    + destruct (IH (K + wsum wc (chunk_cells ch)) Hok) as [ps [Hps Hcol]].
+      rewrite Hps. cbn [bind]. eexists. split; [reflexivity|].
+      now rewrite cells_app, walk_part_exact, Hcol.
+Qed.
+
+(* main statement, character by character: the cells of the slice, zero-width
+   characters and formatting included, are those of the run-aware reference *)
+Theorem slice_cells_exact f a b :
+  fs_ok wc f -> 0 <= a -> 0 <= b ->
+  exists r, fs_was wc f (IxSlice (Some a) (Some b)) = Ok r /\
+            cells r = slice_ref_runs wc a b f.
+Proof.
+  intros Hok Ha Hb. unfold fs_was.
+  pose proof (fs_ok_cells wc f Hok) as Hok'.
+  rewrite <- map_fst_cells, wcswidth_cells by assumption.
+  pose proof (wsum_nonneg wc _ Hok') as Hn.
+  destruct (wsum wc (cells f) =? -1) eqn:E; [lia|].
+  rewrite fs_width_wsum by assumption. cbn [bind ws_normalize_slice].
+  replace (a <? 0) with false by lia. replace (b <? 0) with false by lia. cbn [fst snd].
+  destruct (was_walk_exact a b f 0 Hok) as [parts [Hw Hcells]].
+  rewrite Hw. cbn [bind]. unfold slice_ref_runs.
+  destruct parts as [|p ps].
+  - eexists. split; [reflexivity|]. rewrite <- Hcells. reflexivity.
+  - eexists. split; [reflexivity|]. exact Hcells.
+Qed.
+
+(* where no run begins with a zero-width character the run layout does not matter:
+   the slice is the layout-independent reference applied to the cells *)
+Lemma span_marks_no_lead cs :
+  match cs with [] => false | x :: _ => zero_width wc x end = false -> span_marks wc cs = ([], cs).
+Proof. destruct cs as [|x cs]; [reflexivity|]. cbn [span_marks]. now intros ->. Qed.
+
+Lemma run_ref_ideal a b K ch :
+  starts_with_mark wc ch = false -> run_ref wc a b K ch = slice_ref_from wc K a b (chunk_cells ch).
+Proof.
+  intro H. unfold run_ref. rewrite span_marks_no_lead by exact H. cbn [fst snd].
+  now destruct (lead_kept wc a b K (chunk_cells ch)).
+Qed.
+
+Lemma slice_ref_runs_ideal a b : forall f K, no_leading_marks wc f = true ->
+  slice_ref_runs_from wc K a b f = slice_ref_from wc K a b (cells f).
+Proof.
+  induction f as [|ch f IH]; intros K H; [reflexivity|].
+  cbn [no_leading_marks forallb] in H. apply andb_prop in H as [H1 H2].
+  cbn [slice_ref_runs_from]. rewrite cells_cons, slice_ref_from_app.
+  rewrite run_ref_ideal by (now destruct (starts_with_mark wc ch)).
+  f_equal. now apply IH.
+Qed.
+
+Theorem slice_cells_ideal f a b :
+  fs_ok wc f -> no_leading_marks wc f = true -> 0 <= a -> 0 <= b ->
+  exists r, fs_was wc f (IxSlice (Some a) (Some b)) = Ok r /\
+            cells r = slice_ref wc a b (cells f).
+Proof.
+  intros Hok Hl Ha Hb. destruct (slice_cells_exact f a b Hok Ha Hb) as [r [Hr Hc]].
+  exists r. split; [assumption|]. rewrite Hc. now apply slice_ref_runs_ideal.
+Qed.
+
+(* the zero-width characters strictly inside the range *)
+Lemma inner_marks_from_app x y p a b :
+  inner_marks_from wc p a b (x ++ y) =
+  inner_marks_from wc p a b x ++ inner_marks_from wc (p + wsum wc x) a b y.
+Proof. unfold inner_marks_from. now rewrite positions_app, filter_app, map_app. Qed.
+
+Lemma inner_marks_from_cons x cs p a b :
+  inner_marks_from wc p a b (x :: cs) =
+  (if inner_mark wc a b (p, x) then [x] else []) ++ inner_marks_from wc (p + wc (fst x)) a b cs.
+Proof.
+  unfold inner_marks_from. cbn [positions filter].
+  now destruct (inner_mark wc a b (p, x)).
+Qed.
+
+Lemma inner_marks_keep a b : forall cs p,
+  subseq (inner_marks_from wc p a b cs) (zw_cells wc (slice_ref_from wc p a b cs)).
+Proof.
+  induction cs as [|x cs IH]; intro p; [constructor|].
+  rewrite inner_marks_from_cons, slice_ref_from_cons, zw_cells_app.
+  apply subseq_app; [|apply IH].
+  unfold inner_mark, keep_char. cbn [fst snd].
+  destruct (zero_width wc x) eqn:Ez; cbn [andb]; [|apply subseq_nil_l].
+  unfold zero_width in Ez. rewrite Ez.
+  destruct ((a <? p) && (p <? b)) eqn:E; [|apply subseq_nil_l].
+  replace ((a <? p) && (p <=? b)) with true by lia.
+  cbn [zw_cells filter]. unfold zero_width. rewrite Ez. apply subseq_refl.
+Qed.
+
+Lemma span_marks_all cs : forallb (zero_width wc) cs = true -> span_marks wc cs = (cs, []).
+Proof.
+  induction cs as [|x cs IH]; intro H; [reflexivity|].
+  cbn [forallb] in H. apply andb_prop in H as [H1 H2].
+  cbn [span_marks]. rewrite H1, (IH H2). reflexivity.
+Qed.
+
+Lemma zw_cells_all cs : forallb (zero_width wc) cs = true -> zw_cells wc cs = cs.
+Proof.
+  induction cs as [|x cs IH]; intro H; [reflexivity|].
+  cbn [forallb] in H. apply andb_prop in H as [H1 H2].
+  cbn [zw_cells filter]. rewrite H1. f_equal. now apply IH.
+Qed.
+
+Lemma inner_marks_all a b K : forall cs, forallb (zero_width wc) cs = true ->
+  inner_marks_from wc K a b cs = if (a <? K) && (K <? b) then cs else [].
+Proof.
+  induction cs as [|x cs IH]; intro H; [now destruct ((a <? K) && (K <? b))|].
+  cbn [forallb] in H. apply andb_prop in H as [H1 H2].
+  rewrite inner_marks_from_cons. unfold inner_mark. cbn [fst snd]. rewrite H1.
+  unfold zero_width in H1. replace (K + wc (fst x)) with K by lia.
+  rewrite (IH H2). cbn [andb]. now destruct ((a <? K) && (K <? b)).
+Qed.
+
+Lemma run_keeps_inner_marks a b K ch :
+  negb (starts_with_mark wc ch) || forallb (zero_width wc) (chunk_cells ch) = true ->
+  subseq (inner_marks_from wc K a b (chunk_cells ch)) (zw_cells wc (run_ref wc a b K ch)).
+Proof.
+  intro H. destruct (forallb (zero_width wc) (chunk_cells ch)) eqn:Eall.
+  - (* a run of marks only: kept as a whole iff a < K < b *)
+    unfold run_ref. rewrite span_marks_all by assumption. cbn [fst snd lead_kept].
+    cbn [slice_ref_from positions flat_map]. rewrite app_nil_r, inner_marks_all by assumption.
+    destruct ((a <? K) && (K <? b)); [|constructor].
+    rewrite zw_cells_all by assumption. apply subseq_refl.
+  - rewrite orb_false_r in H. rewrite run_ref_ideal by (now destruct (starts_with_mark wc ch)).
+    apply inner_marks_keep.
+Qed.
+
+Lemma runs_keep_inner_marks a b : forall f K, marks_lead_only_mark_runs wc f = true ->
+  subseq (inner_marks_from wc K a b (cells f)) (zw_cells wc (slice_ref_runs_from wc K a b f)).
+Proof.
+  induction f as [|ch f IH]; intros K H; [constructor|].
+  cbn [marks_lead_only_mark_runs forallb] in H. apply andb_prop in H as [H1 H2].
+  cbn [slice_ref_runs_from]. rewrite cells_cons, inner_marks_from_app, zw_cells_app.
+  apply subseq_app; [now apply run_keeps_inner_marks|now apply IH].
+Qed.
+
+(* every zero-width character whose column lies strictly inside (a, b) is in the
+   slice, with its own formatting, in order - provided no run of positive width
+   begins with a zero-width character (runs made of zero-width characters only
+   are allowed) *)
+Theorem slice_keeps_inner_marks f a b :
+  fs_ok wc f -> marks_lead_only_mark_runs wc f = true -> 0 <= a -> 0 <= b ->
+  exists r, fs_was wc f (IxSlice (Some a) (Some b)) = Ok r /\
+            subseq (inner_marks wc a b (cells f)) (zw_cells wc (cells r)).
+Proof.
+  intros Hok Hl Ha Hb. destruct (slice_cells_exact f a b Hok Ha Hb) as [r [Hr Hc]].
+  exists r. split; [assumption|]. rewrite Hc. now apply runs_keep_inner_marks.
+Qed.
+
+End SliceCells.
